@@ -147,11 +147,50 @@ impl Storage {
                 );
             }
         } else {
+            let genesis_block_filter_hash: Byte32 = {
+                let block_view = block.clone().into_view();
+                let provider = WrappedBlockView::new(&block_view);
+                let parent_block_filter_hash = Byte32::zero();
+                let (genesis_block_filter_vec, missing_out_points) =
+                    build_filter_data(provider, &block_view.transactions());
+                if !missing_out_points.is_empty() {
+                    panic!("Genesis block shouldn't missing any out points.");
+                }
+                let genesis_block_filter_data = genesis_block_filter_vec.pack();
+                calc_filter_hash(&parent_block_filter_hash, &genesis_block_filter_data).pack()
+            };
+            // Everything is written in one batch: an interrupted initialization leaves an empty
+            // storage, not a storage which could never be opened again.
             let mut batch = self.batch();
             let block_hash = block.calc_header_hash();
-            batch
-                .put_kv(Key::Meta(LAST_STATE_KEY), block.header().as_slice())
-                .expect("batch put should be ok");
+            {
+                let mut last_state = U256::zero().to_le_bytes().to_vec();
+                last_state.extend(block.header().as_slice());
+                batch
+                    .put_kv(Key::Meta(LAST_STATE_KEY), last_state)
+                    .expect("batch put should be ok");
+                batch
+                    .put_kv(Key::Meta(LAST_N_HEADERS_KEY), Vec::new())
+                    .expect("batch put should be ok");
+                batch
+                    .put_kv(
+                        Key::Meta(MAX_CHECK_POINT_INDEX),
+                        (0 as CpIndex).to_be_bytes().to_vec(),
+                    )
+                    .expect("batch put should be ok");
+                batch
+                    .put_kv(
+                        Key::CheckPointIndex(0),
+                        Value::BlockFilterHash(&genesis_block_filter_hash),
+                    )
+                    .expect("batch put should be ok");
+                batch
+                    .put_kv(
+                        Key::Meta(MIN_FILTERED_BLOCK_NUMBER),
+                        (0 as BlockNumber).to_le_bytes().to_vec(),
+                    )
+                    .expect("batch put should be ok");
+            }
             batch
                 .put_kv(Key::BlockHash(&block_hash), block.header().as_slice())
                 .expect("batch put should be ok");
@@ -174,22 +213,6 @@ impl Storage {
                 .put_kv(genesis_block_key, genesis_hash_and_txs_hash.as_slice())
                 .expect("batch put should be ok");
             batch.commit().expect("batch commit should be ok");
-            self.update_last_state(&U256::zero(), &block.header(), &[]);
-            let genesis_block_filter_hash: Byte32 = {
-                let block_view = block.into_view();
-                let provider = WrappedBlockView::new(&block_view);
-                let parent_block_filter_hash = Byte32::zero();
-                let (genesis_block_filter_vec, missing_out_points) =
-                    build_filter_data(provider, &block_view.transactions());
-                if !missing_out_points.is_empty() {
-                    panic!("Genesis block shouldn't missing any out points.");
-                }
-                let genesis_block_filter_data = genesis_block_filter_vec.pack();
-                calc_filter_hash(&parent_block_filter_hash, &genesis_block_filter_data).pack()
-            };
-            self.update_max_check_point_index(0);
-            self.update_check_points(0, &[genesis_block_filter_hash]);
-            self.update_min_filtered_block_number(0);
         }
     }
 
